@@ -193,6 +193,10 @@ class FLeaf:
     ys: List[int] = []
 
 Leaf(); Keyed("w"); FLeaf()
+
+# registries consulted by "lookup" preparers (a preparer resolving a name to an EXISTING shared object)
+TABLE = {"tbl": Leaf(x=5, ys=[5])}
+FTABLE = {"tbl": FLeaf(x=5, ys=[5])}
 '''
 
 
@@ -248,6 +252,15 @@ def class_source(rec):
         for a in alist:
             K = KINDS[a["kind"]]
             n = attr_name(a)
+            if a.get("lookup"):
+                tbl = "FTABLE" if a["kind"] in ("fleaf", "fkids") else "TABLE"
+                if "item" in K:
+                    out.append(f"    def _prepare_{K['item']}(self, value):")
+                    out.append(f"        CB.hit('prepare_item_{n}')")
+                else:
+                    out.append(f"    def _prepare_{n}(self, value):")
+                    out.append(f"        CB.hit('prepare_{n}')")
+                out.append(f"        return {tbl}.get(value, value) if isinstance(value, str) else value")
             if n in o.get("preparers", []):
                 out.append(f"    def _prepare_{n}(self, value):")
                 out.append(f"        CB.hit('prepare_{n}')")
@@ -367,6 +380,12 @@ class Env:
         self.MISSING = ns["MISSING"]
         if warm:
             self.cls.__spec_class__  # bootstrap
+
+    def reset_tables(self):
+        """fresh registry entries for every rebuilt world (a change made by one transition - or by the
+        warm-up calls - must not mask the same change made by the next)"""
+        self.ns["TABLE"]["tbl"] = self.Leaf(x=5, ys=[5])
+        self.ns["FTABLE"]["tbl"] = self.FLeaf(x=5, ys=[5])
 
     # ---- values -------------------------------------------------------------------------------
     def mk(self, spec):
@@ -496,6 +515,20 @@ COMPOSITES = [
     composite("CompInv", [("int", "lit"), ("str", "lit"), ("nums", "mut")], invalidated_by={"s": ["v"], "nums": ["v"]}),
     composite("CompInvNoDefault", [("int", "none"), ("str", "lit"), ("float", "lit")], invalidated_by={"s": ["v"], "f": ["s"]}),
 ]
+
+
+def lookup_records():
+    """classes whose preparer resolves the name "tbl" to an existing shared object (never in the default
+    families: a shared object is shared by the user's own doing, which C02/C08 must not be asked to judge)"""
+    return [
+        {"name": "LookupLeaf", "attrs": [{"kind": "leaf", "default": "none", "lookup": True}, {"kind": "int", "default": "lit"}], "opts": {}},
+        {"name": "LookupKids", "attrs": [{"kind": "kids", "default": "mut", "lookup": True}, {"kind": "int", "default": "lit"}], "opts": {}},
+    ]
+
+
+def env_roots(env):
+    """objects outside every instance that no helper call may change"""
+    return {"TABLE": env.ns["TABLE"], "FTABLE": env.ns["FTABLE"]}
 
 
 def quick_family():
